@@ -186,6 +186,9 @@ struct WriterCfg {
     ctor: u8,         // 0 new, 1 with_capacity, 2 from_bufwriter
     cap: usize,       // for ctor 1, 2
     wrap: Option<usize>,
+    /// Some(x): set_linewrap(x) is called before every odd-numbered record and set_linewrap(wrap)
+    /// before every even-numbered one (the wrap may legally change between records)
+    wrap2: Option<Option<usize>>,
     api: u8,          // 0 write(), 1 write_record(), 2 Display
     flush: bool,
     /// explicit flush() after every record
@@ -218,6 +221,15 @@ fn gen_writer_cfg(w: &World, kind: Kind, recs: &[Rec], magic: Option<usize>) -> 
     } else {
         None
     };
+    let wrap2 = if kind == Kind::Fasta && w.chance(1, 8) {
+        Some(match w.draw(3) {
+            0 => None,
+            1 => Some(1 + w.draw(maxlen.min(12) as u64) as usize),
+            _ => Some(60),
+        })
+    } else {
+        None
+    };
     let api = w.draw(3) as u8;
     let flush = w.chance(1, 2);
     let flush_each = w.chance(1, 5);
@@ -225,9 +237,23 @@ fn gen_writer_cfg(w: &World, kind: Kind, recs: &[Rec], magic: Option<usize>) -> 
         ctor,
         cap,
         wrap,
+        wrap2,
         api,
         flush,
         flush_each,
+    }
+}
+
+impl WriterCfg {
+    /// the line wrap in force for record number j (the Display path never wraps)
+    fn wrap_for(&self, j: usize) -> Option<usize> {
+        if self.api == 2 {
+            return None;
+        }
+        match self.wrap2 {
+            Some(w2) if j % 2 == 1 => w2,
+            _ => self.wrap,
+        }
     }
 }
 
@@ -252,7 +278,10 @@ fn produce<S: Write>(kind: Kind, cfg: &WriterCfg, recs: &[Rec], sink: S) -> io::
                 _ => fasta::Writer::from_bufwriter(BufWriter::with_capacity(cfg.cap, sink)),
             };
             wr.set_linewrap(cfg.wrap);
-            for r in recs {
+            for (j, r) in recs.iter().enumerate() {
+                if cfg.wrap2.is_some() {
+                    wr.set_linewrap(cfg.wrap_for(j));
+                }
                 if cfg.api == 0 {
                     wr.write(&r.id, r.desc.as_deref(), &r.seq)?;
                 } else {
@@ -455,9 +484,10 @@ fn layout(kind: Kind, recs: &[Rec], splits: &[Vec<usize>], crlf: bool) -> Image 
 }
 
 /// Splits that reproduce what the writer under test is specified to emit.
-fn writer_splits(recs: &[Rec], wrap: Option<usize>) -> Vec<Vec<usize>> {
+fn writer_splits(recs: &[Rec], wcfg: &WriterCfg) -> Vec<Vec<usize>> {
     recs.iter()
-        .map(|r| match wrap {
+        .enumerate()
+        .map(|(j, r)| match wcfg.wrap_for(j) {
             None => vec![r.seq.len()],
             Some(wd) => {
                 let mut v = vec![];
@@ -488,13 +518,12 @@ fn store(w: &W, kind: Kind, recs: &[Rec], wcfg: &WriterCfg, written: &[u8]) -> (
         2 => Storage::Relayout { crlf: false },
         _ => Storage::Relayout { crlf: true },
     };
-    let wrap = if wcfg.api == 2 { None } else { wcfg.wrap };
     let img = match st {
         Storage::Identity | Storage::Crlf => {
             // take the writer's bytes as they are; annotate them with the layout the writer is
             // specified to produce (only used for probes, cut placement and boundaries)
             let crlf = st == Storage::Crlf;
-            let model = layout(kind, recs, &writer_splits(recs, wrap), crlf);
+            let model = layout(kind, recs, &writer_splits(recs, wcfg), crlf);
             let bytes = if crlf {
                 let mut b = Vec::with_capacity(written.len() + 16);
                 for &x in written {
@@ -1117,7 +1146,7 @@ fn roundtrip(w: &W, kind: Kind, with_cut: bool) -> Verdict {
     if w.keep_trace {
         w.note(
             "writer",
-            json!({"ctor": (["new","with_capacity","from_bufwriter"][wcfg.ctor as usize]), "cap": wcfg.cap, "linewrap": wcfg.wrap,
+            json!({"ctor": (["new","with_capacity","from_bufwriter"][wcfg.ctor as usize]), "cap": wcfg.cap, "linewrap": wcfg.wrap, "linewrap_for_odd_records": format!("{:?}", wcfg.wrap2),
                    "api": (["write","write_record","Display"][wcfg.api as usize]), "explicit_flush": wcfg.flush, "flush_after_each_record": wcfg.flush_each}),
         );
     }
@@ -1423,6 +1452,7 @@ fn partitions(w: &W) -> Verdict {
         ctor: w.draw(3) as u8,
         cap: *w.pick(&[8192usize, 0, 1, 2, 3, 7]),
         wrap: if kind == Kind::Fasta && w.chance(1, 2) { Some(1 + w.draw(2) as usize) } else { None },
+        wrap2: None,
         api: w.draw(3) as u8,
         flush: w.chance(1, 2),
         flush_each: w.chance(1, 4),
